@@ -9,8 +9,6 @@ Definition tbl := Table.table.
 
 Inductive sdk := V1 | V2.
 
-Inductive failure := FInternal | FDeprecated.
-
 Record client := {
   c_tables : fmap tbl;
   c_billing : fmap bool;           (* table -> billing mode is PAY_PER_REQUEST (Table.BillingMode) *)
@@ -463,7 +461,7 @@ Definition batch_get (c : client) (reqs : fmap (list item)) : client * obs :=
           let per_table (tk : str * list item) :=
             let got := map (fun k => (k, snd (get_item_op c (fst tk) k))) (snd tk) in
             let found := flat_map (fun ko => match o_res (snd ko), o_pay (snd ko) with
-                                             | ROk, PItem (_ :: _ as i) => [i] | _, _ => [] end) got in
+                                             | ROk, PItem ((_ :: _) as i) => [i] | _, _ => [] end) got in
             let missing := flat_map (fun ko => match o_res (snd ko), o_pay (snd ko) with
                                                | ROk, PItem (_ :: _) => [] | _, _ => [fst ko] end) got in
             (fst tk, found, missing) in
